@@ -104,7 +104,17 @@ def repetition_caps(prog, rep, RID):
             if not (isinstance(e_, _ast.DictComp) and len(e_.generators) == 1 and "self.G.edges" in norm(e_.generators[0].iter)):
                 raise AnalysisError(f"{cname}.__init__: the repetition cap `{txt[:100]}` is not a dict over the edges of self.G")
             ldefs = _lsd(g.node)
-            vals = [norm(ldefs.get(x.id, x)) if isinstance(x, _ast.Name) else norm(x) for _, x in expr_cases(e_.value)]
+            from rules.common import substitute_locals as _subl
+
+            def _deep(x):
+                # follow locals to their definitions (a few levels: `bound = |E| + ceil(sum(values))`, `values = [... if not ignored]`)
+                for _i in range(4):
+                    y = _subl(x, ldefs)
+                    if norm(y) == norm(x):
+                        break
+                    x = _ast.parse(norm(y), mode="eval").body
+                return x
+            vals = [norm(_deep(x)) for _, x in expr_cases(e_.value)]
             own = [t for t in vals if re.fullmatch(r"[\w.\[\], ()]+\[self\.flow_attr\]", t)]
             other = [t for t in vals if t not in own]
             structural = [t for t in other if "number_of_edges()" in t and "sum(" in t and "edges_to_ignore" in t and "flow_attr" in t]
